@@ -47,6 +47,12 @@ func (lr *LexerReader) Read() rune {
 	return lr.char
 }
 
+// IsEOF reports whether the input is exhausted: nothing is pending and every
+// rune has been handed out, so Read keeps returning 0.
+func (lr *LexerReader) IsEOF() bool {
+	return !lr.ungetFlg && len(lr.history) == 0 && lr.pos >= len(lr.runes)
+}
+
 func (lr *LexerReader) AppendHistory(r rune) {
 	lr.history = append(lr.history, r)
 }
